@@ -65,7 +65,7 @@ def main():
         ds = DS(files if n != 1 else files[0], **kw)
         rec["stage"] = "prior"
         prior_path = None
-        if sc.get("prior", "none") != "none":
+        if sc.get("prior", "none") not in ("none", "same_query"):
             # an earlier query on the same dataset object, with its own docker image
             python_on_whales.SCENARIO = {"container": "ok_result", "chunks": 3, "fail_at": 0}
             st0 = ds.MetaData({"metadata_type": "docker", "image": "vp/earlier:9"})
@@ -80,10 +80,24 @@ def main():
             python_on_whales.SCENARIO = main_scenario
         rec["stage"] = "execute"
         stream = ds
-        if sc["md"] == "present":
-            stream = stream.MetaData({"metadata_type": "docker", "image": "vp/from-metadata:1"})
+        docker_md = {"metadata_type": "docker", "image": "vp/from-metadata:1"}
+        decl_md = {"metadata_type": "add_method_type_info", "type_string": "vp::Thing", "method_name": "size", "return_type": "int"}
+        script_md = {"metadata_type": "add_job_script", "name": "vp_script", "script": ["# vp"]}
+        for m in {"absent": [], "present": [docker_md], "present_decl": [docker_md, decl_md], "decl_present": [decl_md, docker_md],
+                  "present_script": [docker_md, script_md, decl_md]}[sc["md"]]:
+            stream = stream.MetaData(m)
         body = "j.pt()" if sc["translation"] == "ok" else "(1 < j.pt() < 2)"
         stream = stream.Select("lambda e: e.%s('bk').Select(lambda j: %s)" % (coll, body))
+        if sc.get("prior") == "same_query":
+            # the same query object, executed once before with a container that works
+            python_on_whales.SCENARIO = {"container": "ok_result", "chunks": 3, "fail_at": 0, "backend": sc["backend"]}
+            try:
+                res0 = asyncio.run(ds.execute_result_async(stream.query_ast, "vp"))
+                prior_path = Path(res0[0]) if isinstance(res0, (list, tuple)) and res0 else None
+            except Exception:  # noqa
+                pass
+            del python_on_whales.CALLS[:]
+            python_on_whales.SCENARIO = main_scenario
         res = asyncio.run(ds.execute_result_async(stream.query_ast, "vp"))
         rec["returned"] = True
         returned_path = Path(res[0]) if isinstance(res, (list, tuple)) and res else None
